@@ -450,6 +450,13 @@ where
         let l = tensor_prime(point_lower);
         let r = tensor_prime(point_upper);
 
+        let commitments: Vec<_> = commitments.into_iter().collect();
+        if commitments.len() != proof.len() {
+            return Err(Error::IncorrectInputLength(
+                "the proof must contain one opening per commitment".to_string(),
+            ));
+        }
+
         for (com, h_proof) in commitments.into_iter().zip(proof.iter()) {
             let row_coms = &com.commitment().row_coms;
 
